@@ -227,6 +227,12 @@ class Builder:
 
         self._mem_mgr: MemoryManager = MemoryManager()
 
+        # Open EPR contexts: loop register -> (the block's FutureQubit, the handles
+        # that reserve the virtual IDs of the block's pairs)
+        self._epr_context_qubits: Dict[
+            operand.Register, Tuple[FutureQubit, List[Qubit]]
+        ] = {}
+
         # If False, don't return arrays even if they are used in a subroutine
         self._return_arrays: bool = return_arrays
 
@@ -577,6 +583,7 @@ class Builder:
 
         q_id = qubit_ids_array.get_future_index(pair)
         q = FutureQubit(conn=self._connection, future_id=q_id)
+        self._epr_context_qubits[loop_register] = (q, qubit_futures)
 
         return pre_commands, loop_register, ent_results_array, q, pair
 
@@ -604,6 +611,17 @@ class Builder:
             loop_register=loop_register,
         )
         self._mem_mgr.remove_active_register(loop_register)
+
+        # The FutureQubit only has a meaning inside the block. If the block consumed
+        # it (measured or freed it), no pair is left in memory after the loop, so the
+        # virtual IDs reserved for the pairs are given back. Otherwise the pairs stay
+        # allocated and so do the handles that hold their IDs.
+        context_qubit, pair_qubits = self._epr_context_qubits.pop(loop_register)
+        if context_qubit.active:
+            context_qubit.active = False
+        else:
+            for q in pair_qubits:
+                q.active = False
 
     def _assert_epr_args(
         self,
